@@ -324,3 +324,62 @@ def shrink_ops(case, fails, max_runs=60):
             ops = cand["ops"]
         i -= 1
     return dict(case, ops=ops)
+
+
+# ------------------------------------------------------------------ shared driver
+def tainted_prefix(obs_list):
+    """index of the first op whose triggered tasks carried an ordering cycle (the
+    signature of the known finding F2 and of genuinely cyclic definitions), or None"""
+    for k, o in enumerate(obs_list):
+        tr = o.get("oracle", {}).get("trace")
+        if tr and tr.get("cycle"):
+            return k
+        fr = o.get("fresh")
+        if fr and fr.get("cycle"):
+            return k
+    return None
+
+
+def leaves_of(case):
+    out = []
+
+    def walk(spec, pre, kind_of_parent):
+        for k, v in spec["items"]:
+            step = ["i", k] if spec["kind"] in ("dict", "list") else ["a", k]
+            if isinstance(v, dict):
+                walk(v, pre + [step], v["kind"])
+            elif v != "FunSum":
+                out.append(pre + [step])
+    for label, node in case["store"]:
+        walk(node, [label], node["kind"])
+    return out
+
+
+def decide(ctx, proof_ok, cases, observations, mism, failures, replay_extra=None, search=None):
+    """failures: list of (case index, op index, description) found by the property
+    oracle on the implementation.  mism: model/implementation mismatches."""
+    ctx.obligations.append(("correspondence: model = implementation after every operation of every history "
+                            "(exception class, run trace, container contents, task list, the four indices with multiplicities)",
+                            not mism, f"{len(mism)} mismatching cases"))
+    ctx.obligations.append(("property oracle evaluated on the implementation for every generated history",
+                            not failures, f"{len(failures)} failing cases"))
+    if failures:
+        i, k, what = failures[0]
+        case = dict(cases[i], ops=cases[i]["ops"][:k + 1])
+        vlib.violation(ctx, {"kind": "oracle", "what": what, "case": case,
+                             "impl_observation": {kk: v for kk, v in observations[i][k].items() if kk in ("err", "trace", "oracle", "fresh", "store")},
+                             "also_broken": getattr(ctx, "broken", []) + ([f"{len(mism)} model mismatches"] if mism else [])})
+        return
+    if mism or not proof_ok:
+        what = list(getattr(ctx, "broken", []))
+        if mism:
+            i, k = mism[0]
+            what.append(f"correspondence coq/model/ManagerData.v vs xdeps.tasks.Manager broke on {len(mism)} cases; first: case {i} op {k}: "
+                        + json.dumps(cases[i]["ops"][:k + 1])[:1500])
+        found = search() if search else None
+        if found:
+            vlib.violation(ctx, dict(found, also_broken=what))
+        else:
+            vlib.violation(ctx, {"kind": "proof-or-correspondence", "no_longer_checks": what,
+                                 "searched": "property oracle on every generated history (and the extended search): no failing input"},
+                           no_input=True)
